@@ -22,13 +22,21 @@ R5 (added) inputs are recorded: `input_token_ids` of every `_persist_token` call
    `if P: .. else: HERE`, `if not P: HERE else: ..`, a guard clause, `len(P) == 0`, `empty = not P; if empty:`).  P is
    recognised by what it evaluates -- `self.input_ports`, `get_input_ports()`, a Step method returning a selection of
    them -- not by the name of the local it is bound to; the polarity of a `not` is tracked through locals.
+   Helper extraction: when the site sits in a *private* method and what it records is decided by a parameter (the ids
+   themselves, or the root of the get_entity_ids collection: `get_entity_ids(tokens)`, `get_entity_ids(inputs.values())`),
+   the site is checked once per resolved call site of that method (dataflow._param_args, one level) with the parameter
+   read as the caller's argument: `helper([])` / `_on_true({})` is an empty record and needs the no-ports fact at that
+   call site (or at the site inside the helper); the finding names the call that passes the empty collection.
 R6 (added) the consumed tag group is what is recorded: in every Step method that groups a received batch by tag
    (`_group_by_tag(<batch>, <map>)`) and binds a completed group (`<g> = <map>.pop(<tag>)`), nothing in the region dominated
    by the pop that feeds provenance or the step's own processing (the `input_token_ids` of a `_persist_token`, the arguments
    of calls to Step methods and of `Job(...)`) is computed from the raw batch (flow-sensitive reaching definitions): the
    batch holds the *last received* token of every port, which belongs to the completed group only when all ports deliver
    tags in the same order.  Table exception: DeployStep.run discards the popped group and records the batch (its ports
-   carry one default-tagged connector token each, so batch == group); it is reported as an observation.
+   carry one default-tagged connector token each, so batch == group); it is reported as an observation.  The exception
+   covers *recording only*: the batch reaches `input_token_ids` of `_persist_token` directly, or through a private Step
+   helper (resolved call, inlined one level) in which the bound parameter and the locals computed from it are read
+   nowhere but in such `input_token_ids`; a helper that also processes the batch is a violation.
 R7 (added) recorded inputs are persisted before they are recorded: `get_entity_ids` silently drops entities without id, so
    for every step field read by the `get_entity_ids(...)` collection of a `_persist_token` site, every store of a freshly
    constructed Token (sub)class instance into that field must be followed by an awaited `<that token>.save(...)` on every
